@@ -540,8 +540,9 @@ Lemma diag_keeps_meaning : forall L h1 h2 f v,
 Proof.
   intros L h1 h2 f v A O.
   rewrite adm_run_app in A. apply andb_prop in A. destruct A as [A1 A2].
-  simpl in A2. rewrite run_app. simpl.
+  simpl in A2. rewrite run_app.
   set (s := run true L init h1) in *.
+  change (run true L s (MkDiag f :: h2)) with (run true L (fst (step true L s (MkDiag f))) h2).
   assert (inv s) as I by (apply run_inv; auto; apply inv_init).
   pose proof I as (W & F & D).
   unfold obs_fld in O. destruct (nth_error (flds s) f) as [a |] eqn:Ef; [| discriminate].
@@ -607,7 +608,7 @@ Proof.
   destruct (F _ _ E) as (y & d & Ha & Hw & Hn & Hb & Hp).
   unfold s1, step. simpl. rewrite E. unfold any_at. rewrite Ha. simpl.
   split; auto. unfold asnumpy_p. rewrite Hw. simpl. rewrite Hn. simpl.
-  rewrite upd_length. unfold nd_at. simpl. split.
+  unfold nd_at. simpl. split.
   - rewrite <- (upd_length _ (nds s) (and_ y) (mkNd (nbuf d) false)) at 1. apply nth_error_snoc_eq.
   - rewrite nth_error_snoc_eq. unfold obs_fld, obs_any, any_buf, any_at, nd_at, nd_val, nd_at.
     rewrite E, Ha, Hn. destruct (nth_error (bufs s) (nbuf d)) eqn:Eb; auto.
